@@ -67,6 +67,31 @@ def main(argv=None):
         cfgs = spec.families(tier)
         explore.DEFAULT_CAP = 300000 if tier == "quick" else 6000000
         tot = explore.explore(spec, cfgs, seed=seed, account=getattr(spec, "account", True))
+        if hasattr(spec, "explicit_families"):
+            from . import explicit
+            tot["explicit"] = []
+            for ecfg in spec.explicit_families(tier):
+                ecfg = dict(ecfg, _index=len(cfgs))
+                cfgs.append(ecfg)
+                r = explicit.search(spec, ecfg, max_states=ecfg.get("max_states", 400000))
+                # cross-check: every state the stateless engine reaches on the same configuration (first events, two
+                # deviations) must be a state of the explicit search
+                cc = dict(ecfg, D=2, max_events=min(8, max(2, r["depth"])), name=ecfg["name"] + " (cross-check)")
+                t2 = explore.explore(spec, [cc], seed=0, account=True)
+                init = [h for h in t2["states"] if h not in r["canon_seen"]]
+                ok = len(init) == 0 and r["complete"]
+                if not r["complete"]:
+                    ok = None
+                elif init:
+                    tot["harness_errors"].append("explicit-state search of %s misses %d states reached by the stateless engine" % (ecfg["name"], len(init)))
+                tot["harness_errors"].extend(r["harness_errors"])
+                tot["viol"].extend(r["viol"])
+                for k, v in r["known"].items():
+                    kk = tot["known"].setdefault(k, {"n": 0, "what": v["what"]})
+                    kk["n"] += v["n"]
+                tot["explicit"].append({"config": ecfg["name"], "states": r["states"], "transitions": r["transitions"], "executions": r["executions"],
+                                        "depth": r["depth"], "complete": r["complete"], "frontier_per_level": r["levels"][:60],
+                                        "cross_check": ok, "wall_s": round(r["wall_s"], 1)})
         return evidence.conclude(spec, cfgs, tot, tier, seed, t0)
     except env.HarnessError as e:
         print("HARNESS-ERROR: %s" % (e,))
